@@ -387,6 +387,9 @@ Section RB.
   Fixpoint t_run (ops : list op) (t : rbt) : rbt :=
     match ops with [] => t | o :: r => t_run r (fst (t_step t o)) end.
 
+  Fixpoint t_outs (ops : list op) (t : rbt) : list out :=      (* the outcome of every step *)
+    match ops with [] => [] | o :: r => snd (t_step t o) :: t_outs r (fst (t_step t o)) end.
+
   (* ---------------------------------------------------------------- specification:
      association list kept in DESCENDING key order (the order of forward iteration) *)
   Definition amap := list (K * V).
@@ -434,6 +437,9 @@ Section RB.
 
   Fixpoint spec_run (ops : list op) (m : amap) : amap :=
     match ops with [] => m | o :: r => spec_run r (fst (spec_step m o)) end.
+
+  Fixpoint spec_outs (ops : list op) (m : amap) : list out :=
+    match ops with [] => [] | o :: r => snd (spec_step m o) :: spec_outs r (fst (spec_step m o)) end.
 
   (* ---------------------------------------------------------------- observations used by the driver *)
   Fixpoint inorder (t : tree) : list (K * V) :=
